@@ -312,30 +312,47 @@ def run(prog: Program, rep, thorough: bool) -> None:
     except Undecided as exc:
         raise AnalysisError(f'get_density_factor_and_mach_for_altitude: {exc}') from exc
     short, long_ = [], []
-    width = None
+
+    def is_cached(tl) -> bool:
+        return isinstance(tl, Tup) and len(tl.items) == 2 and isinstance(tl.items[0], Scalar) and tl.items[0].rf.equals(A.sym('dr0')) \
+            and isinstance(tl.items[1], Scalar) and tl.items[1].rf.equals(A.sym('mach0'))
     for path, leaf in cond_leaves(rv):
-        near = None
-        for t, pol in path:
-            if t.rf is not None and 'abs' in t.rf.functions() and t.kind in ('pos', 'nonneg'):
-                near = pol if t.kind == 'pos' else (not pol)
-                co = t.rf.map_atoms(lambda at: A.rf(0) if at.kind == 'fn' and at.name == 'abs' else None)
-                if co.is_const():
-                    width = abs(float(co.const_value()))
         if not isinstance(leaf, Tup) or len(leaf.items) != 2:
             continue
         # the temperature clamp leaves guarded values inside the tuple: distribute them
         flat = ev.lift(lambda *xs: Tup(list(xs)), *leaf.items)
         for _p2, tl in cond_leaves(flat):
             if isinstance(tl, Tup):
-                (short if near else long_).append(tl)
-    ok_short = bool(short) and all(isinstance(l.items[0], Scalar) and l.items[0].rf.equals(A.sym('dr0'))
-                                   and isinstance(l.items[1], Scalar) and l.items[1].rf.equals(A.sym('mach0')) for l in short)
-    if ok_short and width is not None and abs(width - 30) < 1e-9:
-        rep.ok('C08.R2', gdf.where, 'within 30 ft of the station the cached station values are returned')
+                (short if is_cached(tl) else long_).append(tl)
+    # the band by sampling the guards (however the test is spelled: fabs(d) < 30, -30 < d < 30, two comparisons):
+    # strictly inside 30 ft of the station the cached values come back, at 30 ft and beyond they do not
+    from .c16 import value_at
+    band_problems = []
+    n_band = 0
+    for a0_ in (0.0, 1000.0, -200.0):
+        for d_, inside in ((0.0, True), (1.0, True), (-1.0, True), (29.5, True), (-29.5, True), (29.999, True), (-29.999, True),
+                           (30.0, False), (-30.0, False), (30.5, False), (-30.5, False), (31.0, False), (-31.0, False),
+                           (500.0, False), (-500.0, False)):
+            got = value_at(rv, {'a0': a0_, 'h': a0_ + d_})
+            if isinstance(got, Tup) and len(got.items) == 2:
+                got = ev.lift(lambda *xs: Tup(list(xs)), *got.items)
+            cached = is_cached(got)
+            if not cached and not isinstance(got, (Tup, Cond)):
+                raise AnalysisError(f'get_density_factor_and_mach_for_altitude at {d_} ft from the station evaluates to {got!r}')
+            if isinstance(got, Cond) and any(is_cached(x_) for _p, x_ in cond_leaves(got)):
+                raise AnalysisError('the near-station test of get_density_factor_and_mach_for_altitude depends on more than the '
+                                    'distance from the station: not readable by sampling')
+            n_band += 1
+            if cached != inside:
+                band_problems.append(f'{d_:+g} ft from the station the {"long formula" if inside else "cached station values"} '
+                                     f'{"is" if inside else "are"} used')
+    if short and not band_problems:
+        rep.ok('C08.R2', gdf.where, f'strictly within 30 ft of the station the cached station values are returned, at 30 ft and '
+               f'beyond the long formula ({n_band} sample distances)')
     else:
         rep.fail('C08.R2', cond.path, gdf.node.lineno, gdf.qualname, 'shortcut',
-                 f'the near-station shortcut is {width} ft wide (stated: 30 ft) or does not return the cached station '
-                 f'values: {[repr(l) for l in short][:1]}')
+                 f'the near-station shortcut is not the stated 30-ft band returning the cached station values: '
+                 f'{"; ".join(band_problems[:3]) or "no path returns the cached values"}')
     ok_long = False
     detail = ''
     for l in long_:
@@ -416,7 +433,7 @@ def run(prog: Program, rep, thorough: bool) -> None:
     problems = []
     hv = A.sym('hv')
     samples = {-0.5: 'raise', 0.0: 0.0, 0.5: 0.5, 1.0: 1.0, 50.0: 0.5, 100.0: 1.0, 100.5: 'raise'}
-    from .c16 import reachable_leaves
+    from .c16 import reachable_leaves, value_at
     for x, want in samples.items():
         ls = reachable_leaves(tree, {'hv': x})
         for l in ls:
@@ -424,7 +441,7 @@ def run(prog: Program, rep, thorough: bool) -> None:
                 if l.kind != 'raise':
                     problems.append(f'humidity {x} is accepted')
                 else:
-                    kept = l.state.heap[obj.oid].get('_humidity')
+                    kept = value_at(l.state.heap[obj.oid].get('_humidity'), {'hv': x})
                     if not (isinstance(kept, Scalar) and kept.rf.equals(A.sym('old'))):
                         problems.append(f'humidity {x} is rejected only after it has been stored: the object keeps {kept!r} '
                                         f'when the error is caught')
@@ -432,7 +449,7 @@ def run(prog: Program, rep, thorough: bool) -> None:
                 if l.kind == 'raise':
                     problems.append(f'humidity {x} is rejected')
                     continue
-                v = l.state.heap[obj.oid].get('_humidity')
+                v = value_at(l.state.heap[obj.oid].get('_humidity'), {'hv': x})
                 try:
                     got = v.rf.evalf({'hv': x}) if isinstance(v, Scalar) else None
                 except KeyError:
